@@ -684,6 +684,9 @@ pub fn build(seed: u64, size: usize) -> Pool {
         pushf(&mut ops, Op::CellToChildren { cell: c, res: Some(r + 1) }, g, fam);
         pushf(&mut ops, Op::Uncompact { cells: vec![c], res: r + 9 }, g, fam);
         pushf(&mut ops, Op::Uncompact { cells: vec![c], res: r + 2 }, g, fam);
+        // a boundary with thousands of vertices (a library may split such work between threads)
+        pushf(&mut ops, Op::CellToBoundary { cell: c, closed: true, segments: Some(1000) }, g, fam);
+        pushf(&mut ops, Op::CellToBoundary { cell: c, closed: false, segments: Some(820) }, g, fam);
         // a BIG input as well (4^8 cells to compact), next to small mixed-resolution inputs
         if let Ok(many) = a5::cell_to_children(c, Some(r + 8)) {
             pushf(&mut ops, Op::Compact { cells: many }, g, fam);
